@@ -36,6 +36,11 @@ package keeper
 //@        unchanged(ctx, xibc) && xibc(ctx) == kvset(callpre("CallPacket", xibc), ak, kvget(xibc(ctx), ak))
 //@ ensures [err-ack-bytes]  err == nil && ncalls("CallPacket") == 1 && !callsok("CallPacket") ==>
 //@        kvget(xibc(ctx), ak) == packettypes.CommitAcknowledgement(ackPack(packettypes.Acknowledgement{Code: 1, Result: []byte{}, Message: "receive packet callback failed", Relayer: callres("GetRelayerAddressOnOtherChain", 0), FeeOption: p.FeeOption}))
+// an error acknowledgement (whatever made the callback fail: an EVM revert, a failing hook, or a failure the packet
+// contract only reports in its result code) leaves nothing behind but the receipt and the acknowledgement itself (C03)
+//@ ensures [error-ack-no-effect] err == nil && p.DstChain == self && ncalls("NewAcknowledgement") == 1 && callres("NewAcknowledgement", 0).Code != 0 ==>
+//@        unchanged(ctx, xibc) && xibc(ctx) == kvset(kvset(old(xibc(ctx)), rk, []byte{1}), ak, kvget(xibc(ctx), ak))
+//@ ensures [ack-code-is-the-callback-code] err == nil && p.DstChain == self ==> ncalls("NewAcknowledgement") == 1
 //@ callsite GetRelayerAddressOnOtherChain [relayer-for-src] chainName == p.SrcChain && address == msg.Signer
 //@ ensures [relayer-registered] err == nil ==> ncalls("GetRelayerAddressOnOtherChain") == 1 && callres("GetRelayerAddressOnOtherChain", 1)
 
